@@ -387,32 +387,30 @@ impl Stage {
     fn retire_leading(&mut self, by_paint: bool) -> Vec<usize> {
         let mut retired = vec![];
         while let Some(&b) = self.members.first() {
-            if self.bars[b].abs.dropped {
-                self.members.remove(0);
-                retired.push(b);
-                if self.last_frame_cut {
-                    // the last frame was cut at the terminal height: only the lines of this bar that
-                    // were painted can remain as static text (and the statement does not pin down
-                    // whether they do)
-                    let painted = self.last_painted.get(&b).cloned().unwrap_or_default();
-                    let full = self.bars[b].abs.submitted.clone().unwrap_or_default();
-                    if painted.len() < full.len() {
-                        if !by_paint {
-                            // the implementation may not have reaped this bar yet: it would still
-                            // paint it once there is room
-                            self.out_of_scope = Some("a dropped bar that did not fit the last frame may be painted later".into());
-                        }
-                        self.bars[b].abs.submitted = Some(painted);
-                        self.bars[b].abs.vanishable = true;
-                    }
-                }
-                let lines_empty = self.bars[b].abs.submitted.as_ref().map_or(true, |l| l.is_empty());
-                if !lines_empty {
-                    self.bars[b].abs.min_log = self.log_count;
-                    self.items.push(Item::Static(b));
-                }
-            } else {
+            if !self.bars[b].abs.dropped {
                 break;
+            }
+            if self.last_frame_cut {
+                // the last frame was cut at the terminal height: only the lines of this bar that
+                // were painted can remain as static text
+                let painted = self.last_painted.get(&b).cloned().unwrap_or_default();
+                let full = self.bars[b].abs.submitted.clone().unwrap_or_default();
+                if painted.len() < full.len() {
+                    if !by_paint {
+                        // the implementation may not have reaped this bar yet: it would still
+                        // paint it once there is room
+                        self.out_of_scope = Some("a dropped bar that did not fit the last frame may be painted later".into());
+                    }
+                    self.bars[b].abs.submitted = Some(painted);
+                    self.bars[b].abs.vanishable = true;
+                }
+            }
+            self.members.remove(0);
+            retired.push(b);
+            let lines_empty = self.bars[b].abs.submitted.as_ref().map_or(true, |l| l.is_empty());
+            if !lines_empty {
+                self.bars[b].abs.min_log = self.log_count;
+                self.items.push(Item::Static(b));
             }
         }
         retired
@@ -808,6 +806,25 @@ impl Stage {
             }
             "iter_exhaust" => {
                 let n = a as usize;
+                if op.n2() % 7 >= 5 {
+                    // an iterator that cannot bound what is left (default size_hint, or an upper
+                    // bound that stays above zero): exhaustion is exhaustion all the same
+                    let mut k = 0usize;
+                    let src = std::iter::from_fn(move || {
+                        k += 1;
+                        if k <= n {
+                            Some(k)
+                        } else {
+                            None
+                        }
+                    });
+                    if op.n2() % 7 == 5 {
+                        for _ in pb.wrap_iter(src) {}
+                    } else {
+                        for _ in pb.wrap_iter(src.take(n + 3)) {}
+                    }
+                    return;
+                }
                 let it = pb.wrap_iter(0..n);
                 // external or internal iteration: both have to end with the finish behaviour
                 match op.n2() % 5 {
